@@ -507,11 +507,17 @@ pub struct Style {
     /// allow comment shapes the stripper is known to mishandle (C01 only)
     pub hostile_comments: bool,
     pub non_ascii_comments: bool,
+    /// tabs for indentation and, now and then, between tokens
+    pub tabs: bool,
+    /// the last line has no line terminator
+    pub no_final_newline: bool,
+    /// the file starts with a byte-order mark
+    pub bom: bool,
 }
 
 impl Style {
     pub fn plain() -> Style {
-        Style { comment_permille: 0, crlf: false, indent: true, hostile_comments: false, non_ascii_comments: false }
+        Style { comment_permille: 0, crlf: false, indent: true, hostile_comments: false, non_ascii_comments: false, tabs: false, no_final_newline: false, bom: false }
     }
     pub fn random(rng: &mut Rng) -> Style {
         Style {
@@ -520,6 +526,10 @@ impl Style {
             indent: rng.chance(7, 8),
             hostile_comments: false,
             non_ascii_comments: rng.chance(1, 4),
+            tabs: rng.chance(1, 6),
+            no_final_newline: rng.chance(1, 6),
+            // (a file with a byte-order mark does not parse at all: only C01 and C19 ask for it)
+            bom: false,
         }
     }
 }
@@ -532,14 +542,17 @@ fn gen_comment(rng: &mut Rng, st: &Style) -> String {
         body.push_str(w);
         body.push(' ');
     }
+    let mut starred = "";
     if st.non_ascii_comments && rng.chance(1, 2) {
-        body.push_str("é∑π ");
+        body.push_str(*rng.pick(&["é∑π ", "这是一个注释 ", "半径 r×π→ ", "日本語のコメント ", "– ’ € "]));
+        // a `*` directly in front of a multi-byte character, inside a block comment
+        starred = *rng.pick(&["", "", "r*π ", "*→ item ", "2*é*∑ "]);
     }
     let safe_block = |b: &str| -> String {
         // shapes the stripper handles: no `*` directly before the closing `*/`
         // other than the closing one, and no `*` followed by a char that matters.
         let b = b.replace('*', "+");
-        format!("/* {b}*/")
+        format!("/* {b}{starred}*/")
     };
     if st.hostile_comments {
         match rng.usize(8) {
@@ -573,10 +586,12 @@ pub fn render(tokens: &[String], style: &Style, rng: &mut Rng) -> String {
         if at_line_start {
             if style.indent {
                 for _ in 0..depth.max(0) {
-                    s.push_str("    ");
+                    s.push_str(if style.tabs { "\t" } else { "    " });
                 }
             }
             at_line_start = false;
+        } else if style.tabs && i % 7 == 3 {
+            s.push('\t');
         } else {
             s.push(' ');
         }
@@ -613,6 +628,19 @@ pub fn render(tokens: &[String], style: &Style, rng: &mut Rng) -> String {
     s
 }
 
+/// File-level layout: byte-order mark in front, last line without terminator.
+pub fn finish_file(mut text: String, style: &Style) -> String {
+    if style.no_final_newline {
+        while text.ends_with('\n') || text.ends_with('\r') {
+            text.pop();
+        }
+    }
+    if style.bom {
+        text.insert(0, '\u{feff}');
+    }
+    text
+}
+
 fn is_tag_brace(tokens: &[String], i: usize) -> bool {
     // `signal input {tag} x`, `component main {public [a]} = ...`
     let t = tokens[i].as_str();
@@ -641,7 +669,7 @@ fn is_tag_brace(tokens: &[String], i: usize) -> bool {
 pub fn render_file(f: &FileUnit, style: &Style, rng: &mut Rng) -> String {
     let mut toks = Vec::new();
     file_tokens(f, &mut toks);
-    render(&toks, style, rng)
+    finish_file(render(&toks, style, rng), style)
 }
 
 pub fn render_def(d: &Def) -> String {
@@ -703,6 +731,8 @@ pub struct Knobs {
     /// a function may take the name of a template of the project (two name spaces in the
     /// tool's maps, one in the language)
     pub shared_names: bool,
+    /// file names with blanks, `#`, `%`, `+`, quotes-free punctuation and non-ASCII letters
+    pub odd_file_names: bool,
     /// literals are drawn modulo this prime family: 0 = bn254
     pub prime: usize,
 }
@@ -743,6 +773,7 @@ impl Knobs {
             odd_names: false,
             rare_shapes: b(1, 3),
             shared_names: b(1, 10),
+            odd_file_names: b(1, 8),
             max_stmts: 2 + rng.usize(14),
             max_depth: rng.usize(4),
             expr_depth: 1 + rng.usize(3),
@@ -2170,10 +2201,16 @@ pub fn gen_project(rng: &mut Rng, k: &Knobs, shape: &ProjectShape) -> Project {
             defs.push(d);
         }
     }
+    let odd_pick = if k.odd_file_names { rng.usize(6) } else { 0 };
     // Distribute definitions over files; file 0 is the root that (transitively) includes the others.
     let mut files: Vec<FileUnit> = (0..n_files)
         .map(|i| FileUnit {
-            path: if i == 0 { "main.circom".to_string() } else { format!("lib{i}.circom") },
+            path: if !k.odd_file_names {
+                if i == 0 { "main.circom".to_string() } else { format!("lib{i}.circom") }
+            } else {
+                let stem = ["main circuit", "lib#1", "lïb%20two", "a+b (copy)", "Ünïcode", "x=y&z"][(i + odd_pick) % 6];
+                if i == 0 { format!("{stem}.circom") } else { format!("{stem} {i}.circom") }
+            },
             pragma: None,
             custom_pragma: false,
             includes: vec![],
@@ -2307,7 +2344,7 @@ impl Project {
                 text.push('\n');
             }
             layout.defs.insert(f.path.clone(), entries);
-            w.put(&f.path, &text);
+            w.put(&f.path, &finish_file(text, style));
         }
         (w, layout)
     }
